@@ -102,6 +102,13 @@ Theorem C01_monitor_sound : forall c : pcase, C01Corr.monitor (set_obs c (model_
 Proof. exact C01Sound.monitor_sound. Qed.
 Print Assumptions C01_monitor_sound.
 
+(** m3r: where no third party acts, the implementation must return a collision error (what becomes
+    Available=False/CollisionDetected) whenever the model's pass does, i.e. (C01_collision_error_sound) whenever the phase
+    loop reaches a listed object that must be refused; the clause accepts every pass of the model. *)
+Theorem C01_refusal_report_monitor_sound : forall c : pcase, C01Corr.m3r (set_obs c (model_run c)) = true.
+Proof. exact C01Sound.m3r_sound. Qed.
+Print Assumptions C01_refusal_report_monitor_sound.
+
 (** C01 at the controller level (coq/corr/SetMonitors.v m01: a collision is reported as
     Available=False/CollisionDetected for the generation read, or the stored condition is re-sent unchanged):
     the monitor accepts every pass of the ObjectSet controller model. *)
